@@ -556,6 +556,16 @@ class World:
         self.consumers.append(consumer)
         return consumer
 
+    def close(self):
+        """Stop the only real threads a world can own (event loops of async subscription managers)."""
+        for p in self.providers:
+            loop_thread = getattr(p._soap_client_pool, 'async_loop_subscr_mgr', None)
+            if loop_thread is not None:
+                try:
+                    loop_thread.stop()
+                except Exception:  # noqa: BLE001
+                    pass
+
     def mk_consumer_mdib(self, consumer):
         from sdc11073.mdib.consumermdib import ConsumerMdib
         mdib = ConsumerMdib(consumer)
